@@ -188,7 +188,7 @@ def gen_stress(ctx, scale):
     return cases
 
 
-TOK = re.compile(r'^([A-Z\-])([\d,]*)\|fl=([\w,]*)\|pc=(\d+)\|lv=(-?\d+)$')
+TOK = re.compile(r'^([A-Z\-])([\d,]*)\|fl=([\w,]*)\|pc=(\d+)\|lv=(-?\d+)\|ro=([\w,:\-!?]*)$')
 STATS = {}
 
 
@@ -232,6 +232,10 @@ def oracle_seq(case, out):
             if r in seen: reused = True
             seen.add(r); det.add(r)
         elif ev == 'A': det.discard(ids[0]); tab.add(ids[0])
+        elif ev == 'P': tab.discard(ids[0]); det.discard(ids[1]); tab.add(ids[1])
+        elif ev == 'W':
+            if ids[0] not in det: return 'harness bookkeeping: assigned over a row that was not detached', False
+            det.discard(ids[0]); pend.add(ids[0]); ids = ids[:1]
         elif ev == 'X': tab.discard(ids[0]); det.add(ids[0])
         elif ev == 'R': tab.discard(ids[0])
         elif ev == 'D' or ev == 'E':
@@ -251,8 +255,16 @@ def oracle_seq(case, out):
         if ev == 'N' and not gone: bump('newrow-without-drain')
         if ev == 'Z' and fls: return 'a failed NewRow left the free list undrained / pushed something: %s' % t, False
         pend = set(fls)
-        if ev in ('D', 'E') and fls[:len(ids)] != list(reversed(ids)):
+        if ev in ('D', 'E', 'W') and fls[:len(ids)] != list(reversed(ids)):
             return 'a destroyed row is not at the head of the free list after %s' % t, False
+        objs = [o for o in m.group(6).split(',') if o]
+        held = [int(o.split(':')[0]) for o in objs if not o.startswith('-')]
+        if any(not o.endswith(':T') for o in objs if not o.startswith('-')):
+            return 'a Row object holds a buffer but does not point to its table\'s free list (or column list) after %s: %s' % (t, m.group(6)), False
+        if any(o != '-:0' for o in objs if o.startswith('-')):
+            return 'a moved-from Row object still points to a free list after %s: %s' % (t, m.group(6)), False
+        if sorted(held) != sorted(det):
+            return 'Row objects hold %s but the detached buffers are %s after %s' % (sorted(held), sorted(det), t), False
         if pc != len(det) + len(tab) + len(fls):
             return 'pool holds %d buffers but %d are alive and %d on the free list after %s (reclaimed %s)' % (
                 pc, len(det) + len(tab), len(fls), t, 'twice or while alive' if pc < len(det) + len(tab) + len(fls) else 'never'), False
@@ -299,7 +311,7 @@ def model_trace(impl_line):
 
 def strip_lv(impl_line):
     toks = impl_line.split()
-    return ' '.join(re.sub(r'\|lv=-?\d+$', '', t) for t in toks[:-1])
+    return ' '.join(re.sub(r'\|lv=-?\d+', '', t) for t in toks[:-1])
 
 
 def run_stress(ctx, exe, cases, name, extra_env):
@@ -370,6 +382,7 @@ def run(ctx):
                         'CAS/exchange) and tested with ThreadSanitizer, not proved',
                         'a detached Row object is used/destroyed by one thread at a time (hand-over between threads is synchronised by the client)',
                         'MemPool hands out only free buffers (C20/C09) and may overwrite a buffer it holds; the table outlives its detached rows']
+    ctx.regen(['gen_datarow.json'])      # T-gen: DataRow::ptGetRaw / ptExtractRaw, used inside TreiberRows.stepl
     ctx.prove()
     flags = ['-pthread']
     harness = ctx.cxx('harness.cpp', 'harness', flags, sanitize=False)
@@ -428,7 +441,7 @@ def run(ctx):
         ctx.stage('corr:trace-replay', ok, ('model driver exit %d %s\n' % (rc2, err2[-300:]) if rc2 else '') +
                   ('first disagreement: case %r\nimpl : %s\nmodel: %s (%d total)' % (mism[0][0], mism[0][1][:700], mism[0][2][:700], len(mism)) if mism else ''))
         ctx.tie_obligations.append({'name': 'extracted machine replays %d observed event traces: same free list after every event, same outstanding '
-                                            'buffer count, every label enabled, quiescent with disposed == reclaimed at the end (10 table configurations)' % len(tcases), 'ok': ok})
+                                            'buffer count, SAME THREE MEMBERS OF EVERY ROW OBJECT (layered machine TreiberRows.stepl with the generated ptExtractRaw), every label enabled, quiescent with disposed == reclaimed at the end (10 table configurations)' % len(tcases), 'ok': ok})
         mism.sort(key=lambda m: len(m[0]))
         for (c, il, ml) in mism[:2]:
             if not bad:
